@@ -16,6 +16,7 @@ pub mod util;
 include!("mods.rs");
 mod registry;
 mod defrag_hist;
+mod ext_search;
 
 fn parse_vals(s: &str) -> (String, Vec<Vec<u8>>) {
     // minimal JSON reader for {"harness": "...", "vals": [[..],[..]]}
@@ -55,6 +56,13 @@ fn main() {
         match defrag_hist::search(depth) {
             Some((ops, d)) => println!("{{\"outcome\": \"violation\", \"detail\": \"{}\", \"defrag_history\": {}}}", esc(&d), defrag_hist::ops_to_json(&ops)),
             None => println!("{{\"outcome\": \"not-reproduced\", \"detail\": \"no diverging history of length <= {} over the witness alphabet\"}}", depth),
+        }
+        return;
+    }
+    if inp.contains("\"ext_search\"") {
+        match ext_search::search() {
+            Some(d) => println!("{{\"outcome\": \"violation\", \"detail\": \"{}\"}}", esc(&d)),
+            None => println!("{{\"outcome\": \"not-reproduced\", \"detail\": \"all 65536 types x 4 bodies x 3 dispatchers follow the table\"}}"),
         }
         return;
     }
